@@ -195,6 +195,8 @@ Fixpoint index_of {A} (p : A -> bool) (l : list A) : option nat :=
   | x :: t => if p x then Some 0 else option_map S (index_of p t)
   end.
 Definition mem_str (s : string) (l : list string) : bool := existsb (String.eqb s) l.
+Fixpoint distinct_str (l : list string) : bool :=
+  match l with [] => true | x :: t => negb (mem_str x t) && distinct_str t end.
 Fixpoint remove_nth {A} (n : nat) (l : list A) : list A :=
   match n, l with
   | _, [] => []
